@@ -22,7 +22,13 @@
      bin un cast cond           depth-1 expressions over every type (pair)
      init arg ret assign test   the implicit-conversion contexts (source type a, destination b)
      opasg incdec               the ten op= and the four ++/-- on an object of type a
-     d2l d2r                    depth 2: (x op y) op2 z  /  z op2 (x op y), operators by lowering class  *)
+     d2l d2r                    depth 2: (x op y) op2 z  /  z op2 (x op y), operators by lowering class
+     cc                         cast chains (c)(b) x for every ordered triple of types (x : a)
+     ccinit ccarg ccret ccassign  an explicit cast (b) x converted implicitly to an object of type c
+                                (emitted as init/arg/ret/assign vectors whose expression is the cast)
+     ptr                        pointers into an array of element size 1,2,4,8,12,24: p + i, i + p, p - i with i
+                                of every integer type (value of i, not its conversion: unsigned int >= 2^31
+                                moves forward), p - q (long), p < q ... (int); values are element indexes    *)
 EXTENDS CIntBV, TLC, Json, CSV, IOUtils
 
 CONSTANTS Fams, Seed, Stride,
@@ -72,7 +78,20 @@ FewS == FoldLeft(LAMBDA f, t : (t :> StrOf(FewT[t])) @@ f, <<>>, TSeq)
 (* TLC re-evaluates these table definitions at every use (they are not recognised as
    constants because of the LAMBDAs), which costs ~10 ms per access.  They are therefore
    evaluated once, in an ASSUME, into TLC registers (inherited by every worker).       *)
+(* cast chains: values that distinguish truncation, sign extension and the comparison with 0 of _Bool *)
+CCCand == <<FromInt(0), FromInt(1), FromInt(2), FromInt(-1), FromInt(128), FromInt(256)>>
+CCOf(t) == SelectSeq(CCCand, LAMBDA zz : InRange(zz, t) /\ zz # MinV(t) /\ zz # MaxV(t)) \o <<MinV(t), MaxV(t)>>
+CCT == FoldLeft(LAMBDA f, t : (t :> CCOf(t)) @@ f, <<>>, TSeq)
+CCS == FoldLeft(LAMBDA f, t : (t :> StrOf(CCT[t])) @@ f, <<>>, TSeq)
+(* pointers: the array has NPtr elements (the replay reserves the address range, never touches it) *)
+NPtr == Add(Pow2(32), FromInt(16))
+KT == <<FromInt(0), FromInt(7), FromInt(300), FromInt(70000), Add(Pow2(31), FromInt(5)), Add(Pow2(32), FromInt(8))>>
+KS == StrOf(KT)
+SizeSeq == <<"1", "2", "4", "8", "12", "24">>
+SizeOfTag(s) == CASE s = "1" -> 1 [] s = "2" -> 2 [] s = "4" -> 4 [] s = "8" -> 8 [] s = "12" -> 12 [] OTHER -> 24
+PtrSeq == <<"padd", "pradd", "psub", "pdiff", "plt", "ple", "pgt", "pge", "peq", "pne">>
 ASSUME TLCSet(11, BndT) /\ TLCSet(12, BndS) /\ TLCSet(13, FewT) /\ TLCSet(14, FewS)
+       /\ TLCSet(15, CCT) /\ TLCSet(16, CCS) /\ TLCSet(17, KT) /\ TLCSet(18, KS)
 
 N1 == {"-"}
 Cases ==
@@ -85,15 +104,26 @@ Cases ==
   \cup ({"opasg"} \X AsgOps \X N1 \X Types \X Types \X N1)
   \cup ({"incdec"} \X {"preinc", "predec", "postinc", "postdec"} \X N1 \X Types \X N1 \X N1)
   \cup ({"d2l", "d2r"} \X D2Ops1 \X D2Ops2 \X Types9 \X Types9 \X D2TypesC)
+  \cup ({"cc", "ccinit", "ccarg", "ccret", "ccassign"} \X N1 \X N1 \X Types \X Types \X Types)
+  \cup ({"ptr"} \X PtrArithOps \X {"1", "2", "4", "8", "12", "24"} \X Types \X N1 \X N1)
+  \cup ({"ptr"} \X PtrRelOps \X {"1", "2", "4", "8", "12", "24"} \X N1 \X N1 \X N1)
 
+CCFam == fam \in {"cc", "ccinit", "ccarg", "ccret", "ccassign"}
 Deep == fam \in {"cond", "d2l", "d2r", "opasg"}
-VT(t) == IF Deep THEN TLCGet(13)[t] ELSE TLCGet(11)[t]
-VS(t) == IF Deep THEN TLCGet(14)[t] ELSE TLCGet(12)[t]
+VT(t) == IF Deep THEN TLCGet(13)[t] ELSE IF CCFam THEN TLCGet(15)[t] ELSE TLCGet(11)[t]
+VS(t) == IF Deep THEN TLCGet(14)[t] ELSE IF CCFam THEN TLCGet(16)[t] ELSE TLCGet(12)[t]
 NV(t) == IF t = "-" THEN 1 ELSE Len(VT(t))
+(* index ranges of the three value coordinates of the current case *)
+NI == IF fam = "ptr" /\ a = "-" THEN Len(KT) ELSE NV(a)
+NJ == IF fam = "ptr" THEN Len(KT)
+      ELSE IF CCFam \/ fam \in {"un", "cast", "init", "arg", "ret", "assign", "test", "incdec"} THEN 1 ELSE NV(b)
+NK == IF CCFam \/ fam = "ptr" THEN 1 ELSE NV(c)
 
 OIdxOf(o) == IF \E n \in 1..Len(BinSeq) : BinSeq[n] = o THEN CHOOSE n \in 1..Len(BinSeq) : BinSeq[n] = o
              ELSE IF \E n \in 1..4 : UnSeq[n] = o THEN CHOOSE n \in 1..4 : UnSeq[n] = o
-             ELSE IF \E n \in 1..4 : KindSeq[n] = o THEN CHOOSE n \in 1..4 : KindSeq[n] = o ELSE 0
+             ELSE IF \E n \in 1..4 : KindSeq[n] = o THEN CHOOSE n \in 1..4 : KindSeq[n] = o
+             ELSE IF \E n \in 1..10 : PtrSeq[n] = o THEN CHOOSE n \in 1..10 : PtrSeq[n] = o
+             ELSE IF \E n \in 1..6 : SizeSeq[n] = o THEN CHOOSE n \in 1..6 : SizeSeq[n] = o ELSE 0
 TI(t) == IF t = "-" THEN 0 ELSE TIdx(t)
 CaseHash(cs) == OIdxOf(cs[2]) * 101 + OIdxOf(cs[3]) * 59 + TI(cs[4]) * 7 + TI(cs[5]) * 13 + TI(cs[6]) * 17
 (* the depth-2 families are thinned by whole cases (D2Stride), every family by value choice (Stride) *)
@@ -102,10 +132,13 @@ CasePicked(cs) == cs[1] \in {"d2l", "d2r"} =>
                     /\ ((CaseHash(cs) \div D2Base) + Seed) % D2Stride = 0
 (* the small families (unary, casts, the conversion contexts, ++/--) are always enumerated completely;
    depth 2 is thinned by whole cases already, so its value choices are thinned 8 times less *)
-VStride == IF fam \in {"un", "cast", "init", "arg", "ret", "assign", "test", "incdec"} THEN 1
+VStride == IF fam \in {"un", "cast", "init", "arg", "ret", "assign", "test", "incdec", "cc"} THEN 1
+           ELSE IF fam = "ptr" THEN (IF op \in PtrRelOps \/ Stride < 6 THEN 1 ELSE 6)
+           ELSE IF fam \in {"ccinit", "ccarg", "ccret", "ccassign"} THEN (IF Stride < 8 THEN 1 ELSE 8)
            ELSE IF fam \in {"d2l", "d2r"} /\ Stride >= 8 THEN Stride \div 8 ELSE Stride
 Pick(ii, jj, kk) == LET h == hb + ii * 31 + jj * 37 + kk * 41 IN
                     IF VStride = 1 /\ fam \notin {"bin", "cond", "opasg", "d2l", "d2r"} THEN TRUE
+                    ELSE IF fam \in {"ptr", "ccinit", "ccarg", "ccret", "ccassign"} THEN (h + Seed) % VStride = 0
                     ELSE h % Base = 0 /\ ((h \div Base) + Seed) % VStride = 0
 
 LeafJ(t, n) == [k |-> "leaf", t |-> t, v |-> VS(t)[n]]
@@ -116,6 +149,8 @@ TreeJ(ii, jj, kk) ==
   CASE fam \in {"bin", "opasg"} -> [k |-> "bin", op |-> op, a |-> LeafJ(a, ii), b |-> LeafJ(b, jj)]
     [] fam = "un"   -> [k |-> "un", op |-> op, a |-> LeafJ(a, ii)]
     [] fam = "cast" -> [k |-> "cast", t |-> b, a |-> LeafJ(a, ii)]
+    [] fam = "cc"   -> [k |-> "cast", t |-> c, a |-> [k |-> "cast", t |-> b, a |-> LeafJ(a, ii)]]
+    [] fam \in {"ccinit", "ccarg", "ccret", "ccassign"} -> [k |-> "cast", t |-> b, a |-> LeafJ(a, ii)]
     [] fam = "cond" -> [k |-> "cond", c |-> LeafJ(c, kk), a |-> LeafJ(a, ii), b |-> LeafJ(b, jj)]
     [] fam = "d2l"  -> [k |-> "bin", op |-> op2, a |-> [k |-> "bin", op |-> op, a |-> LeafJ(a, ii), b |-> LeafJ(b, jj)], b |-> LeafJ(c, kk)]
     [] fam = "d2r"  -> [k |-> "bin", op |-> op2, a |-> LeafJ(c, kk), b |-> [k |-> "bin", op |-> op, a |-> LeafJ(a, ii), b |-> LeafJ(b, jj)]]
@@ -124,6 +159,8 @@ TreeZ(ii, jj, kk) ==
   CASE fam = "bin"  -> BinE(op, LeafZ(a, ii), LeafZ(b, jj))
     [] fam = "un"   -> UnE(op, LeafZ(a, ii))
     [] fam = "cast" -> CastE(b, LeafZ(a, ii))
+    [] fam = "cc"   -> CastE(c, CastE(b, LeafZ(a, ii)))
+    [] fam \in {"ccinit", "ccarg", "ccret", "ccassign"} -> CastE(b, LeafZ(a, ii))
     [] fam = "cond" -> CondE(LeafZ(c, kk), LeafZ(a, ii), LeafZ(b, jj))
     [] fam = "d2l"  -> BinE(op2, BinE(op, LeafZ(a, ii), LeafZ(b, jj)), LeafZ(c, kk))
     [] fam = "d2r"  -> BinE(op2, LeafZ(c, kk), BinE(op, LeafZ(a, ii), LeafZ(b, jj)))
@@ -133,6 +170,7 @@ TreeZ(ii, jj, kk) ==
 Expect(ii, jj, kk) ==
   LET r == Ev(TreeZ(ii, jj, kk)) IN
   CASE fam \in {"init", "arg", "ret", "assign"} -> AsIf(b, r)
+    [] fam \in {"ccinit", "ccarg", "ccret", "ccassign"} -> AsIf(c, r)
     [] fam = "test"   -> Test(r)
     [] fam = "opasg"  -> OpAssign(op, a, VT(a)[ii], Res(TRUE, b, VT(b)[jj]))
     [] fam = "incdec" -> IncDec(op, a, VT(a)[ii])
@@ -144,29 +182,46 @@ IsDivZero(ii, jj) == fam = "bin" /\ op \in {"div", "mod"} /\ IsZero(VT(b)[jj])
    at every use inside an action; a one-element eager fold is not) *)
 With(v, F(_)) == FoldLeft(LAMBDA acc, xx : F(xx), FALSE, <<v>>)
 
+FamOut == CASE fam = "ccinit" -> "init" [] fam = "ccarg" -> "arg" [] fam = "ccret" -> "ret" [] fam = "ccassign" -> "assign"
+             [] OTHER -> fam
+DestOut == IF CCFam THEN c ELSE b
 EmitR(r, ii, jj, kk) ==
   IF r.ok
-  THEN CSVWrite("%1$s", <<ToJson([f |-> fam, op |-> op, d |-> b, e |-> TreeJ(ii, jj, kk),
+  THEN CSVWrite("%1$s", <<ToJson([f |-> FamOut, op |-> op, d |-> DestOut, e |-> TreeJ(ii, jj, kk),
                                    t |-> r.t, sz |-> StoreW(r.t) \div 8, sg |-> Sg(r.t),
                                    u |-> ToDecU(64, r.v), s |-> ToDec(r.v),
                                    obj |-> IF fam = "incdec" THEN ToDecU(64, r.obj)
-                                           ELSE IF fam \in {"opasg", "assign", "init", "arg", "ret"} THEN ToDecU(64, r.v) ELSE "",
+                                           ELSE IF FamOut \in {"opasg", "assign", "init", "arg", "ret"} THEN ToDecU(64, r.v) ELSE "",
                                    dz |-> FALSE])>>, IOEnv.OUT)
   ELSE IF IsDivZero(ii, jj)
   THEN CSVWrite("%1$s", <<ToJson([f |-> fam, op |-> op, d |-> b, e |-> TreeJ(ii, jj, kk),
                                    t |-> "int", sz |-> 0, sg |-> FALSE, u |-> "", s |-> "", obj |-> "", dz |-> TRUE])>>, IOEnv.OUT)
   ELSE FALSE
-Emit(ii, jj, kk) == With(Expect(ii, jj, kk), LAMBDA r : EmitR(r, ii, jj, kk))
+(* pointer vectors: i (type a, value string iv) and the element indexes k, k2; the expected observable is the
+   byte offset of the result from the array start (arith), the index difference (pdiff) or 0/1 (comparisons) *)
+EmitPtr(ii, jj) ==
+  LET s  == SizeOfTag(op2)
+      kt == TLCGet(17)  ks == TLCGet(18)
+  IN IF op \in PtrArithOps
+     THEN With(PtrArith(op, kt[jj], VT(a)[ii], NPtr),
+               LAMBDA r : r.ok /\ CSVWrite("%1$s", <<ToJson([f |-> "ptr", op |-> op, es |-> s, it |-> a, iv |-> VS(a)[ii],
+                                                              k |-> ks[jj], k2 |-> "", t |-> "ptr", sz |-> 8, sg |-> FALSE,
+                                                              u |-> ToDecU(64, Mul(r.v, FromInt(s))), dz |-> FALSE])>>, IOEnv.OUT))
+     ELSE With(PtrRel(op, kt[ii], kt[jj]),
+               LAMBDA r : CSVWrite("%1$s", <<ToJson([f |-> "ptr", op |-> op, es |-> s, it |-> "-", iv |-> "",
+                                                     k |-> ks[ii], k2 |-> ks[jj], t |-> r.t, sz |-> StoreW(r.t) \div 8, sg |-> TRUE,
+                                                     u |-> ToDecU(64, r.v), dz |-> FALSE])>>, IOEnv.OUT))
+Emit(ii, jj, kk) == IF fam = "ptr" THEN EmitPtr(ii, jj)
+                    ELSE With(Expect(ii, jj, kk), LAMBDA r : EmitR(r, ii, jj, kk))
 
 Init == /\ ph = 0 /\ i = 0 /\ j = 0 /\ k = 0
         /\ \E cs \in Cases : /\ cs[1] \in Fams
                              /\ CasePicked(cs)
                              /\ hb = CaseHash(cs)
                              /\ fam = cs[1] /\ op = cs[2] /\ op2 = cs[3] /\ a = cs[4] /\ b = cs[5] /\ c = cs[6]
-Unary == fam \in {"un", "cast", "init", "arg", "ret", "assign", "test", "incdec"}
 Next == /\ ph = 0 /\ ph' = 1
         /\ UNCHANGED <<fam, op, op2, a, b, c, hb>>
-        /\ \E ii \in 1..NV(a), jj \in 1..(IF Unary THEN 1 ELSE NV(b)), kk \in 1..NV(c) :
+        /\ \E ii \in 1..NI, jj \in 1..NJ, kk \in 1..NK :
              /\ Pick(ii, jj, kk)
              /\ Emit(ii, jj, kk)
              /\ i' = ii /\ j' = jj /\ k' = kk
